@@ -178,7 +178,7 @@ let verdict_len n t impl =
   let ms = match model with Ok b -> "len " ^ hex_of_n b ^ " " ^ hex_of_n b
                           | Err b -> "err body-too-long " ^ hex_of_n b in
   match impl with
-  | ["skipped"] -> "ok skipped-not-enough-memory"
+  | ["skipped"] -> "ok not-run-not-enough-memory"
   | ["len"; b; f] ->
     let b = n_of_hex b and f = n_of_hex f in
     if f <> b then
@@ -198,6 +198,7 @@ let verdict_blob comp len impl =
   let len = n_of_hex len in
   let ms = function Ok b -> "len " ^ hex_of_n b ^ " " ^ hex_of_n b | Err b -> "err body-too-long " ^ hex_of_n b in
   match impl with
+  | ["skipped"] -> "ok not-run-strict-overcommit"
   | ["len"; p; f] ->
     let p = n_of_hex p and f = n_of_hex f in
     if f <> p then
@@ -227,7 +228,7 @@ let verdict_big what len impl =
   let m = big_outcome k (n_of_hex len) in
   let ms = match m with Ok b -> "len " ^ hex_of_n b ^ " " ^ hex_of_n b | Err e -> "err " ^ err_name e in
   match impl with
-  | ["skipped"] -> "ok skipped-not-enough-memory"
+  | ["skipped"] -> "ok not-run-not-enough-memory"
   | ["len"; b; f] ->
     let b = n_of_hex b and f = n_of_hex f in
     if f <> b then Printf.sprintf "viol length-field=%s differs-from-body-size=%s" (hex_of_n f) (hex_of_n b)
@@ -278,13 +279,24 @@ let stream_of_frame (f : n list) : z =
 let verdict_e2e impl =
   match impl with
   | "skip-env" :: _ -> "ok not-run-environment"
+  | "e2e-fail" :: why -> "diff e2e-call-failed " ^ String.concat " " why
   | "e2e" :: _ :: items ->
     let bad = ref [] in
+    let miscount = ref [] in
     List.iteri (fun k item ->
         match String.index_opt item ':' with
         | None -> bad := Printf.sprintf "item%d:malformed" k :: !bad
+        | Some i when String.contains (String.sub item 0 i) '#' && String.sub item (i + 1) (String.length item - i - 1) = "-" ->
+          miscount := Printf.sprintf "item%d:no-frame-for-the-call" k :: !miscount
         | Some i ->
-          let asked = String.split_on_char '/' (String.sub item 0 i) in
+          let descr = String.sub item 0 i in
+          (* <asked>#<n>: the call put n <> 1 frames on the wire *)
+          let descr = match String.index_opt descr '#' with
+            | Some j -> miscount := Printf.sprintf "item%d:%s-frames-for-one-call" k
+                            (String.sub descr (j + 1) (String.length descr - j - 1)) :: !miscount;
+              String.sub descr 0 j
+            | None -> descr in
+          let asked = String.split_on_char '/' descr in
           let frame = nlist_of_hex (String.sub item (i + 1) (String.length item - i - 1)) in
           let case = match asked with k :: rest -> k :: "n" :: "0" :: rest | [] -> [] in
           (match (try Some (request_of case []) with _ -> None) with
@@ -302,8 +314,9 @@ let verdict_e2e impl =
              if not (frame_says no_codec None false (stream_of_frame frame) r frame) then
                bad := Printf.sprintf "item%d:%s" k (String.sub item 0 (min i 60)) :: !bad)) items;
     if items = [] then "diff e2e-without-frames"
-    else if !bad = [] then "ok"
-    else "viol session-frame-does-not-say-what-was-asked " ^ String.concat "," (List.rev !bad)
+    else if !bad <> [] then "viol session-frame-does-not-say-what-was-asked " ^ String.concat "," (List.rev !bad)
+    else if !miscount <> [] then "diff e2e-frame-count " ^ String.concat "," (List.rev !miscount)
+    else "ok"
   | _ -> "error bad-impl-output"
 
 let rec take_l k l = if k <= 0 then [] else match l with [] -> [] | x :: r -> x :: take_l (k - 1) r
